@@ -62,14 +62,18 @@ func VerifC01Section() {
 	nl := verifParam("nlens", len(c01DataLens))
 	nh := verifParam("nhdrs", len(c01HeaderLens))
 	k := verifParam("sections", 2)
-	c01HeaderBody = verifBytes("header", c01HeaderLens[verifChoice("hdrlen", nh)])
+	hc := verifChoice("hdrlen", nh)
+	c01HeaderBody = verifBytes("header", c01HeaderLens[hc])
+	dsum := hc
 	var lb [binary.MaxVarintLen64]byte
 	file := append([]byte{}, lb[:binary.PutUvarint(lb[:], uint64(len(c01HeaderBody)))]...)
 	file = append(file, c01HeaderBody...)
 	var datas [][]byte
 	var totals []uint64
 	for i := 0; i < k; i++ {
-		dl := c01DataLens[verifChoice("datalen", nl)]
+		dc := verifChoice("datalen", nl)
+		dsum += dc
+		dl := c01DataLens[dc]
 		d := verifBytes("data", dl)
 		sec := c01Section(c01Cid(i), d)
 		datas = append(datas, d)
@@ -85,7 +89,11 @@ func VerifC01Section() {
 	for i := 0; i < k; i++ {
 		wantCid, err := cid.Cast(c01Cid(i))
 		verifAssert(err == nil, "C01.section: harness CID does not parse")
-		switch verifChoice("op", 3) {
+		op := (dsum + i) % 3 // quick tier: the call used for all but the last section follows from the other choices
+		if i == k-1 || verifParam("allops", 1) == 1 {
+			op = verifChoice("op", 3)
+		}
+		switch op {
 		case 0:
 			c, n, bl, err := cr.NextNode()
 			verifAssert(err == nil, "C01.section: NextNode failed on a well-formed section")
@@ -108,5 +116,53 @@ func VerifC01Section() {
 	}
 	_, _, _, err = cr.NextNode()
 	verifAssert(err != nil && errors.Is(err, io.EOF), "C01.section: end of file is not reported as io.EOF")
+	verifReach("end")
+}
+
+// C01.section.trunc — a CAR that ends inside its last section (after the length prefix, inside or
+// right after the CID, inside the payload) is never mistaken for the regular end of the file: the
+// Next* call on the damaged section fails with an error that is not io.EOF, so the indexing loop
+// (which stops at errors.Is(err, io.EOF)) reports the failure instead of sealing indexes that lack
+// the object. A CAR that ends exactly at a section boundary still ends with io.EOF.
+func VerifC01SectionTrunc() {
+	nl := verifParam("nlens", 4)
+	c01HeaderBody = verifBytes("header", 59)
+	var lb [binary.MaxVarintLen64]byte
+	file := append([]byte{}, lb[:binary.PutUvarint(lb[:], uint64(len(c01HeaderBody)))]...)
+	file = append(file, c01HeaderBody...)
+	first := c01Section(c01Cid(0), verifBytes("data", 70))
+	file = append(file, first...)
+	dl := c01DataLens[verifChoice("datalen", nl)]
+	last := c01Section(c01Cid(1), verifBytes("data", dl))
+	pl := len(last) - 36 - dl // bytes of the length prefix
+	// how many bytes of the last section are present
+	keeps := []int{0, pl - 1, pl, pl + 1, pl + 4, pl + 35, pl + 36, pl + 36 + dl/2, len(last) - 1}
+	keep := keeps[verifChoice("keep", len(keeps))]
+	if keep < 0 || (keep == pl-1 && pl == 1) {
+		keep = 0
+	}
+	file = append(file, last[:keep]...)
+	path := verifTempPath("epoch.car")
+	verifMemFile(path, file)
+	f, err := os.Open(path)
+	verifAssert(err == nil, "C01.section.trunc: open")
+	cr, err := New(f)
+	verifAssert(err == nil && cr != nil, "C01.section.trunc: carreader.New failed")
+	_, n, _, err := cr.NextNode()
+	verifAssert(err == nil && n == uint64(len(first)), "C01.section.trunc: the complete first section is not read")
+	switch verifChoice("op", 3) {
+	case 0:
+		_, _, _, err = cr.NextNode()
+	case 1:
+		_, _, _, err = cr.NextNodeBytes()
+	case 2:
+		_, _, err = cr.NextInfo()
+	}
+	verifAssert(err != nil, "C01.section.trunc: reading past the end of the file succeeds")
+	if keep == 0 {
+		verifAssert(errors.Is(err, io.EOF), "C01.section.trunc: a CAR ending at a section boundary does not end with io.EOF")
+	} else {
+		verifAssert(!errors.Is(err, io.EOF), "C01.section.trunc: a CAR that ends inside a section is reported as the regular end of the file (io.EOF)")
+	}
 	verifReach("end")
 }
